@@ -54,7 +54,9 @@ def quantile_(array, inv_idx, *, q, axis, skipna, group_idx, dtype=None, out=Non
     actual_sizes = np.add.reduceat(array_validmask, inv_idx[:-1], axis=axis)
     newshape = (1,) * (array.ndim - 1) + (inv_idx.size - 1,)
     full_sizes = np.reshape(np.diff(inv_idx), newshape)
-    nanmask = full_sizes != actual_sizes
+    # skipna=False: any NaN in a group makes the result NaN;
+    # skipna=True: only groups without a single valid element are NaN.
+    nanmask = (actual_sizes == 0) if skipna else (full_sizes != actual_sizes)
 
     # The approach here is to use (complex_array.partition) because
     # 1. The full np.lexsort((array, labels), axis=-1) is slow and unnecessary
@@ -123,7 +125,7 @@ def quantile_(array, inv_idx, *, q, axis, skipna, group_idx, dtype=None, out=Non
     # TODO: could support all the interpolations here
     gamma = np.broadcast_to(virtual_index, idxshape) - lo_
     result = _lerp(loval, hival, t=gamma, out=out, dtype=dtype)
-    if not skipna and np.any(nanmask):
+    if np.any(nanmask):
         result[..., nanmask] = np.nan
     return result
 
